@@ -36,13 +36,13 @@ CHECKS = {
         category='proof',
         text='Coq theorems for all values: exact positional encoding and round trip of 1/2/3/4/8-byte integers in all four byte '
              'orders, rejection (never truncation) of values that do not fit, flag-set round trips over the generated flag tables, '
-             'fixed-length mpints exact and rejecting, SSH mpints of non-negative integers canonical (RFC 4251) and round-tripping, '
+             'fixed-length mpints exact and rejecting, SSH mpints of non-negative integers canonical (RFC 4251), SSH mpints of either sign round-tripping, '
              'timestamps (seconds / milliseconds / forever sentinel). The model of common/parse.py primitives is tied to the code by '
              'running the OCaml program extracted from it and the implementation on the same boundary + random commands; the '
              'time-zone clause is decided by a 12-zone sweep of the implementation (runtime behaviour, not modelled).',
         design_ref='DESIGN.md section 6, C11',
         note='Trusted: Coq kernel; extraction (ExtrOcamlBasic only) + OCaml; the differential harness; struct native order = little endian; '
-             'negative mpints and TZ behaviour are tied by correspondence / sweep only, not by a theorem.',
+             'TZ behaviour is decided by a sweep, not by a theorem.',
         technique='Coq proof over a hand-written model of the primitives; extracted-model vs implementation differential run; TZ sweep'),
     'C10': dict(
         category='proof',
